@@ -767,3 +767,93 @@ contract(G + "GraphBasedModelConstructor.construct_fl_isoforms#tail_evidence", {
          # as having a polyA site when either holds
          ensures=["result[1] == (path[0][0] == -20)", "result[0] == (path[len(path) - 1][0] == -10)", "result[2] == (result[0] or result[1])"],
          canary="not result[1]")
+
+
+# ---- clustering of read ends: the step that keeps two models with one intron chain from being built around neighbouring end positions -----------
+def _end_clustering_problems(seed):
+    """random position tables through the real IntronGraph.cluster_polya_positions (all clusters kept: cutoffs 0) and the real
+    GraphBasedModelConstructor.cluster_monoexons; clauses, over the input table and the returned clusters only: (1) every read end is
+    counted in exactly one cluster (sum of counts kept / every read in one list); (2) every observed position lies within apa_delta of
+    a cluster position; (3) two cluster positions that are not annotated ends are more than apa_delta apart - the thread step accepts a
+    vertex within apa_delta (closed), so two closer clusters give two full-length paths with one intron chain"""
+    import random
+    import types
+    ig = native.repo_import("src/intron_graph.py")
+    gm = native.repo_import("src/graph_based_model_construction.py")
+    rng = random.Random(seed)
+    problems = []
+    for _ in range(60):
+        d = rng.choice((1, 5, 10, 50))
+        read_end = rng.random() < .5
+        intron = (1000, 2000)
+        lo = 2001 if read_end else 1
+        centre = lo + 4 * d + rng.randrange(600)
+        offs = [0, d, -d, d + 1, -d - 1, 2 * d, -2 * d, 2 * d + 1] + [rng.randrange(-3 * d, 3 * d + 1) for _ in range(4)]
+        positions = {}
+        for o in rng.sample(offs, rng.randrange(1, len(offs))):
+            p = centre + o
+            if (p > intron[1]) if read_end else (0 < p < intron[0] - 4 * d):
+                positions[p] = rng.randrange(1, 6)
+        if not positions:
+            continue
+        known = sorted(set(centre + rng.choice((-d - 3, 3 * d + 7, 7 * d)) for _ in range(rng.randrange(0, 3))))
+        known = [k for k in known if ((k > intron[1] + d) if read_end else (d < k < intron[0] - d))]
+        g = ig.IntronGraph.__new__(ig.IntronGraph)
+        g.params = types.SimpleNamespace(apa_delta=d, terminal_position_abs=0, terminal_position_rel=0.0)
+        g.terminal_known_positions = {intron: known}
+        g.starting_known_positions = {intron: known}
+        try:
+            res = g.cluster_polya_positions(dict(positions), intron, read_end)
+        except AssertionError:
+            continue   # a snapped position on the wrong side of the intron: the function's own precondition, not ours
+        tag = "cluster_polya_positions(apa_delta=%d, positions=%s, annotated=%s)" % (d, sorted(positions.items()), known)
+        if sum(res.values()) != sum(positions.values()):
+            problems.append("%s -> %s: %d read ends in, %d in the clusters" % (tag, sorted(res.items()), sum(positions.values()), sum(res.values())))
+        for p in positions:
+            if not any(abs(p - k) <= d for k in res):
+                problems.append("%s -> %s: position %d is in no cluster" % (tag, sorted(res.items()), p))
+        free = sorted(k for k in res if k not in known)
+        for a, b in zip(free, free[1:]):
+            if b - a <= d:
+                problems.append("%s -> %s: clusters %d and %d are %d apart (must be more than apa_delta)" % (tag, sorted(res.items()), a, b, b - a))
+        # mono-exon clustering: same shape, lists of reads instead of counts
+        c = gm.GraphBasedModelConstructor.__new__(gm.GraphBasedModelConstructor)
+        c.params = types.SimpleNamespace(apa_delta=d)
+        grouped = dict((p, ["r%d_%d" % (p, i) for i in range(n)]) for p, n in positions.items())
+        res2 = c.cluster_monoexons(dict((k, list(v)) for k, v in grouped.items()))
+        tag2 = "cluster_monoexons(apa_delta=%d, %s)" % (d, sorted((p, len(v)) for p, v in grouped.items()))
+        allr = sorted(r for v in res2.values() for r in v)
+        if allr != sorted(r for v in grouped.values() for r in v):
+            problems.append("%s: reads in the clusters differ from the reads given" % tag2)
+        for k, v in res2.items():
+            for r in v:
+                if abs(int(r[1:].split("_")[0]) - k) > d:
+                    problems.append("%s: read %s in the cluster at %d" % (tag2, r, k))
+        ks = sorted(res2)
+        for a, b in zip(ks, ks[1:]):
+            if b - a <= d:
+                problems.append("%s: clusters %d and %d are %d apart" % (tag2, a, b, b - a))
+        if problems:
+            break
+    return problems
+
+
+def replay_end_clustering(d):
+    p = _end_clustering_problems(d["inputs"]["seed"])
+    return (not p), "seed %s: %s" % (d["inputs"]["seed"], p[:3] or "clusters consistent")
+
+
+@bounded("C04.end_clustering", ["C04"], note="random tables of observed read-end positions (offsets 0, +-apa_delta, +-(apa_delta+1), +-2*apa_delta and "
+         "random ones around a peak; with and without annotated ends nearby) through the real IntronGraph.cluster_polya_positions and "
+         "GraphBasedModelConstructor.cluster_monoexons: every read end in exactly one cluster, every position within apa_delta of its "
+         "cluster, clusters that are not annotated ends more than apa_delta apart")
+def c04_end_clustering(tier, rng):
+    n = 10 if tier == "quick" else 200
+    base = rng.randrange(10 ** 9)
+    for k in range(n):
+        p = _end_clustering_problems(base + k)
+        if p:
+            return {"cases": (k + 1) * 60, "bound": "random tables", "violations": [
+                {"obligation": "C04.end_clustering", "inputs": {"seed": base + k}, "observed": p[:3],
+                 "required": "clusters partition the read ends; distinct clusters more than apa_delta apart", "replay_call": "contracts.c_novel:replay_end_clustering"}]}
+    return {"cases": n * 60, "bound": "%d x 60 random position tables, apa_delta in {1,5,10,50}" % n, "violations": [], "samples": [{"seed": base}]}
